@@ -173,13 +173,13 @@ def generate(tier):
         obs.append(dict(engine="kani", crate="gluon_vm", module=PRIM, modname="verif_kani_gen", harness=h,
                         name="C06/prim/%s/%s" % (short, n), complete=not bounded, bound="&str arguments: all strings of <= 2 Unicode scalar values; loops unwound 10x with unwinding assertions" if bounded else None,
                         clause="registered expression `%s` applied to all well-typed arguments does not panic / overflow-trap / UB%s" % (e["expr"], "".join(" [excluding known class: %s]" % k["class"] for k in ks)),
-                        functions=["%s::%s -> %s" % (PRIM, t, e["expr"])], timeout=300))
+                        functions=["%s::%s -> %s" % (PRIM, t, e["expr"])], timeout=1500))
         for i, k in enumerate(ks):
             hk = "%s__known%d" % (h, i)
             body2 = lets + "    let f = %s;\n    if false { let _ = %s; }\n    kani::assume(%s);\n    let r = %s;\n    mem::forget(r);\n" % (e["expr"], call, k["class"], call)
             out.append("#[kani::proof]\n#[kani::should_panic]\n#[kani::stub(alloc::fmt::format, stub_format)]\n%spub(super) fn %s() {\n%s}\n" % ("#[kani::unwind(34)]\n" if n == "pow" else "", hk, body2))
             obs.append(dict(engine="kani", crate="gluon_vm", module=PRIM, modname="verif_kani_gen", harness=hk, known=k, complete=True,
-                            name="C06/prim/%s/%s/known%d" % (short, n, i), clause="known finding still present: %s" % k["text"], functions=[], timeout=300, is_known_probe=True))
+                            name="C06/prim/%s/%s/known%d" % (short, n, i), clause="known finding still present: %s" % k["text"], functions=[], timeout=1500, is_known_probe=True))
     text = "\n".join(out)
     write_if_changed(GEN, text)
     generate.cache = (obs, skipped, len([e for e in ents if e["kind"] == "prim"]))
